@@ -31,15 +31,21 @@ POINTS = {
 _CACHE: dict = {}
 
 
-def setup(system: str) -> tuple:
-    if system in _CACHE:
-        return _CACHE[system]
-    from symplyphysics import CoordinateSystem
-    cs = CoordinateSystem(getattr(CoordinateSystem.System, system.upper()))
+def setup(system: str, instance: int = 0) -> tuple:
+    """a coordinate system of the given type; every `instance` is a distinct object with its own
+    base scalars (results must not depend on which instance was used before)"""
+    if (system, instance) in _CACHE:
+        return _CACHE[(system, instance)]
+    from symplyphysics import CoordinateSystem, coordinates_transform
+    S = getattr(CoordinateSystem.System, system.upper())
+    if instance == 2 and system != "cartesian":
+        cs = coordinates_transform(CoordinateSystem(), S)  # derived from a Cartesian parent
+    else:
+        cs = CoordinateSystem(S)
     q = cs.coord_system.base_scalars()
     ref = R.ChainRule(system, q)
-    _CACHE[system] = (cs, q, ref)
-    return _CACHE[system]
+    _CACHE[(system, instance)] = (cs, q, ref)
+    return _CACHE[(system, instance)]
 
 
 def basis(q: tuple) -> list[tuple[str, Any]]:
@@ -71,13 +77,17 @@ def zero_at_points(system: str, q: tuple, e: Any) -> bool:
     return True
 
 
-def op_cases(system: str) -> list[tuple[str, str]]:
+def op_cases(system: str, instance: int = 0) -> list[tuple[str, str]]:
     from symplyphysics import Vector
     from symplyphysics.core.fields.scalar_field import ScalarField
     from symplyphysics.core.fields.vector_field import VectorField
     from symplyphysics.core.fields.operators import (gradient_operator, divergence_operator,
         curl_operator)
-    cs, q, ref = setup(system)
+    cs, q, ref = setup(system, instance)
+    if instance:
+        system_tag = f"{system}#{instance}"
+    else:
+        system_tag = system
     out = []
     B = basis(q)
     # gradient on the basis
@@ -86,7 +96,7 @@ def op_cases(system: str) -> list[tuple[str, str]]:
         want = ref.grad(f)
         ok = len(g.components) == 3 and all(zero_at_points(system, q, a - b) for a, b in zip(
             g.components, want))
-        out.append((f"grad:{system}:{name}", "" if ok else
+        out.append((f"grad:{system_tag}:{name}", "" if ok else
             f"gradient of {name} in {system} is {short(g.components, 160)}, chain rule gives "
             f"{short([sp.simplify(w) for w in want], 160)}"))
     # divergence / curl: component count n, one slot carrying a basis element
@@ -100,13 +110,13 @@ def op_cases(system: str) -> list[tuple[str, str]]:
                 F = VectorField.from_vector(Vector(comps, cs))
                 d = divergence_operator(F)
                 wd = ref.div(comps)
-                out.append((f"div:{system}:{n}:{s}:{name}", "" if zero_at_points(system, q, d - wd)
+                out.append((f"div:{system_tag}:{n}:{s}:{name}", "" if zero_at_points(system, q, d - wd)
                     else f"divergence of {comps} in {system} is {short(d, 160)}, chain rule gives "
                     f"{short(sp.simplify(wd), 160)}"))
                 c = curl_operator(F).apply_to_basis().components
                 wc = ref.curl(comps)
                 ok = all(zero_at_points(system, q, a - b) for a, b in zip(R.pad(c), wc))
-                out.append((f"curl:{system}:{n}:{s}:{name}", "" if ok else
+                out.append((f"curl:{system_tag}:{n}:{s}:{name}", "" if ok else
                     f"curl of {comps} in {system} is {short(c, 160)}, chain rule gives "
                     f"{short([sp.simplify(w) for w in wc], 160)}"))
     # all slots generic at once, every component count
@@ -115,23 +125,23 @@ def op_cases(system: str) -> list[tuple[str, str]]:
         comps = G[:n]
         F = VectorField.from_vector(Vector(comps, cs))
         d = divergence_operator(F)
-        out.append((f"div:{system}:{n}:generic", "" if zero_at_points(system, q, d - ref.div(comps))
+        out.append((f"div:{system_tag}:{n}:generic", "" if zero_at_points(system, q, d - ref.div(comps))
             else f"divergence of a generic {n}-component field differs from the chain rule: "
             f"{short(d, 200)}"))
         cF = curl_operator(F)
         c = cF.apply_to_basis().components
         ok = all(zero_at_points(system, q, a - b) for a, b in zip(R.pad(c), ref.curl(comps)))
-        out.append((f"curl:{system}:{n}:generic", "" if ok else
+        out.append((f"curl:{system_tag}:{n}:generic", "" if ok else
             f"curl of a generic {n}-component field differs from the chain rule: {short(c, 200)}"))
         # div curl F = 0
         dc = divergence_operator(cF)
-        out.append((f"divcurl:{system}:{n}", "" if zero_at_points(system, q, dc) else
+        out.append((f"divcurl:{system_tag}:{n}", "" if zero_at_points(system, q, dc) else
             f"div(curl F) != 0 for a generic {n}-component field: {short(sp.simplify(dc), 200)}"))
     # curl grad f = 0
     f = sp.Function("f")(*q)
     g = gradient_operator(ScalarField.from_expression(f, cs))
     cg = curl_operator(VectorField.from_vector(g)).apply_to_basis().components
-    out.append((f"curlgrad:{system}", "" if all(zero_at_points(system, q, x) for x in cg) else
+    out.append((f"curlgrad:{system_tag}", "" if all(zero_at_points(system, q, x) for x in cg) else
         f"curl(grad f) != 0: {short([sp.simplify(x) for x in cg], 200)}"))
     # linearity premise on basis pairs (gradient and divergence of slot 0)
     for (n1, f1), (n2, f2) in itertools.combinations(B[1:6], 2):
@@ -140,12 +150,13 @@ def op_cases(system: str) -> list[tuple[str, str]]:
         g1 = gradient_operator(ScalarField.from_expression(f1, cs)).components
         g2 = gradient_operator(ScalarField.from_expression(f2, cs)).components
         ok = all(zero_at_points(system, q, a - (b + k * c)) for a, b, c in zip(g12, g1, g2))
-        out.append((f"linear:grad:{system}:{n1}+{n2}", "" if ok else "gradient is not linear"))
+        out.append((f"linear:grad:{system_tag}:{n1}+{n2}", "" if ok else "gradient is not linear"))
     return out
 
 
 def _work(system: str) -> dict:
-    cases = op_cases(system)
+    # three instances of the same system type, one after the other in one process
+    cases = op_cases(system, 0) + op_cases(system, 1) + op_cases(system, 2)
     res: dict[str, Any] = {"n": len(cases), "keys": [k for k, _ in cases], "outcomes": {},
         "violations": [], "samples": [cases[len(cases) // 2][0]]}
     for k, v in cases:
@@ -163,7 +174,8 @@ def main(run: Run) -> int:
         r["n"] = 0
         run.absorb([r])
     return run.finish(
-        rule="3 systems x {gradient on a 12-element field basis; divergence and curl for component "
+        rule="3 systems x 3 instances per system type in one process (second and third instance after "
+        "the first: results must not depend on earlier calls) x {gradient on a 12-element field basis; divergence and curl for component "
         "counts 0..3 x slot x basis; generic undefined functions in all slots; curl grad = 0; "
         "div curl = 0; linearity on basis pairs}; each result compared with the chain-rule "
         "reference at 2-3 lattice points with derivative atoms as independent numbers",
